@@ -78,6 +78,9 @@ func scenCorrupt(r *Run) {
 	injected := 0
 	for i := 0; i < nInj; i++ {
 		at += time.Duration(t.Skewed(cr, 0, 200000)) * time.Microsecond
+		if i == 0 && t.Chance("corrupt-src", 500) {
+			at = 0 // before anything genuine has arrived anywhere
+		}
 		s.At(at+time.Duration(i), "corrupt", func() {
 			done++
 			if w.TearingDown || s.Viol != nil {
@@ -86,6 +89,7 @@ func scenCorrupt(r *Run) {
 			// target conn and claimed source
 			var to *SimConn
 			from := ""
+			peerOf := "" // dialled target: the address of its real peer
 			switch {
 			case w.LConn != nil && t.Chance(cr, 500):
 				to = w.LConn
@@ -96,9 +100,16 @@ func scenCorrupt(r *Run) {
 			case t.Chance(cr, 500) || x.B == nil || x.B.Conn == w.LConn:
 				to = x.A.Conn
 				from = x.A.Remote
+				peerOf = x.A.Remote
 			default:
 				to = x.B.Conn
 				from = x.B.Remote
+				peerOf = x.B.Remote
+			}
+			if peerOf != "" && t.Chance("corrupt-src", 300) {
+				// a stranger's datagram at a dialled session (a tape stream of its own)
+				from = MakeAddr(240+t.Choose("corrupt-src", 3), w.UDP).String()
+				s.Stats.Probe("corrupted-from-foreign-source")
 			}
 			if to.IsClosed() {
 				return
@@ -241,8 +252,15 @@ func scenCorrupt(r *Run) {
 					return
 				}
 			}
+			foreign := peerOf != "" && from != peerOf
 			for k, v0 := range sn0 {
 				v1 := sn1[k]
+				if foreign && (k == "InErrs" || k == "InCsumErrors") {
+					// a dialled session drops a stranger's datagram at its source filter,
+					// before the integrity check: it may count it as an input error
+					// instead of (or as well as) a checksum error
+					continue
+				}
 				if k == "InCsumErrors" {
 					exp := v0
 					if counted {
@@ -276,6 +294,20 @@ func scenCorrupt(r *Run) {
 				if b1, _ := w.L.VerifBacklog(); b1 != backlog0 {
 					s.Fail("C06", "no-effect", "session-created", "the accept backlog went from %d to %d after a corrupted datagram (%s)", backlog0, b1, kind)
 				}
+			}
+			// ... and the session still hears its peer: a copy of a genuine datagram
+			// (a network duplicate, harmless) from the real peer's address is counted
+			// as received (the counter sits behind the source filter and the gate)
+			if s.Viol == nil && peerOf != "" && len(q) > 0 && !to.IsClosed() {
+				g := q[len(q)-1]
+				in0 := kcp.DefaultSnmp.Copy().InPkts
+				s.L.Logf("probe: duplicate of a genuine datagram (%d bytes) into %s from its peer %s", len(g), to.addrStr, peerOf)
+				w.Net.Deliver(to.addrStr, peerOf, g, "probe")
+				synctest.Wait()
+				if in1 := kcp.DefaultSnmp.Copy().InPkts; in1 != in0+1 && !to.IsClosed() {
+					s.Fail("C06", "no-effect", "session-deaf-after-corrupted-datagram", "after a datagram failing the integrity check (%s, from %s) a genuine datagram from the session's peer %s is no longer taken in by %s (received-packet counter %d -> %d)", kind, from, peerOf, to.addrStr, in0, in1)
+				}
+				s.Stats.Probe("hears-peer-probe")
 			}
 		})
 	}
